@@ -47,7 +47,10 @@ def run(ctx):
     b = ctx.go_test_binary("fs/layer", "h_layer")
     if b:
         ctx.correspond(b, "TestVerifC12", "svdriver_c12", "c12",
-                       env={"VERIF_N": 60 if quick else 2500})
+                       env={"VERIF_N": 150 if quick else 3000})
+        if quick:
+            # a few rounds of the concurrent stress without the race detector (oracle only)
+            ctx.correspond(b, "TestVerifC12Conc", "svdriver_c12", "c12conc", env={"VERIF_N": 6})
     if not quick:
         br = ctx.go_test_binary("fs/layer", "h_layer_race", race=True)
         if br:
@@ -65,7 +68,9 @@ def run(ctx):
              "directories, per-layer status changes closed/reader/metadata/fs cache/blob/http cache) and the oracle "
              "checks held => open and readable, sharing without eviction, reclamation after release+eviction, "
              "nothing left by a failed Resolve, fresh working instance afterwards"
-             + ("" if quick else "; plus an oracle-only concurrent stress (6 resolvers of one name, timers, -race)"),
+             + ("; plus 6 rounds of an oracle-only concurrent stress (6 resolvers of one name share one resolved "
+                "instance, holders read while others release/expire, everything reclaimed at the end)" if quick
+                else "; plus 40 rounds of that concurrent stress under the race detector"),
         assumptions=[
             "Resolve holds the per-name lock for its whole body (checked each run on the sources) and its cache "
             "accesses commute with other goroutines' done/timer operations, so resolve is one atomic operation",
